@@ -192,6 +192,7 @@ pub fn run(ctx: &mut Ctx) {
     });
 
     // every witness version x every program length 2..=40 (20/32 for v0) x 3 networks x {plain, blinded}
+    ctx.seen("exhaustive_subspaces", "C06: witness versions 0..=16 x program lengths 2..=40 x 3 networks x {plain, blinded}");
     ctx.phase("version-length-grid", 17 * 39 * 3 * 2, |ctx, k| {
         let v = (k % 17) as u8;
         let l = 2 + ((k / 17) % 39) as usize;
@@ -298,7 +299,8 @@ pub fn run(ctx: &mut Ctx) {
             4 => {
                 // non-zero padding bits
                 let v = ctx.rng.gen_range(0..=16u8);
-                let l = if v == 0 { 20 } else { *gen::pick(&mut ctx.rng, &[2usize, 32, 33, 40]) };
+                // every program length, so that 1..4 padding bits all occur
+                let l = if v == 0 { *gen::pick(&mut ctx.rng, &[20usize, 32]) } else { ctx.rng.gen_range(2..=40) };
                 let payload = with_key(&gen::bytes(&mut ctx.rng, l));
                 let mut d = vec![v];
                 d.extend(addr::to5(&payload));
@@ -308,9 +310,10 @@ pub fn run(ctx: &mut Ctx) {
                 }
                 let pad = 5 - padbits;
                 let last = d.len() - 1;
-                d[last] |= 1 << ctx.rng.gen_range(0..pad);
+                let bit = ctx.rng.gen_range(0..pad);
+                d[last] |= 1 << bit;
                 let s = addr::encode5(addr::variant_for(v, blinded), hrp, &d);
-                check_invalid(ctx, &s, &format!("nonzero-padding{}", sfx));
+                check_invalid(ctx, &s, &format!("nonzero-padding/{}-padding-bits/bit{}{}", pad, bit, sfx));
             }
             5 => {
                 // a superfluous zero symbol (5 or more padding bits)
